@@ -198,20 +198,22 @@ pub fn gen_filter(r: &mut Rng, trace: &[Timed]) -> FilterSpec {
         let net = match a {
             IpAddr::V4(v) => {
                 let o = v.octets();
-                let pl = *r.pick(&[32u8, 31, 30, 24, 8, 0]);
+                let pl = *r.pick(&[32u8, 31, 30, 24, 23, 17, 8, 1, 0]);
                 let m: u32 = if pl == 0 { 0 } else { u32::MAX << (32 - pl as u32) };
                 let n = u32::from_be_bytes(o) & m;
                 (IpAddr::V4(n.to_be_bytes().into()), pl)
             }
             IpAddr::V6(v) => {
-                let pl = *r.pick(&[128u8, 127, 120, 112, 64, 0]);
+                let pl = *r.pick(&[128u8, 127, 120, 112, 96, 65, 64, 63, 48, 45, 32, 1, 0]);
                 let n = u128::from_be_bytes(v.octets());
                 let m: u128 = if pl == 0 { 0 } else { u128::MAX << (128 - pl as u32) };
                 (IpAddr::V6((n & m).to_be_bytes().into()), pl)
             }
         };
         let (cs, cd) = *r.pick(&[(true, true), (true, false), (false, true)]);
-        f.subnet = Some(SubnetSpec { nets: vec![net], check_src: cs, check_dst: cd });
+        // one rule in three is written the way `ip addr` prints it: the host's own address with the prefix length
+        let as_written = if r.chance(1, 3) { vec![(a, net.1)] } else { vec![] };
+        f.subnet = Some(SubnetSpec { nets: vec![net], as_written, check_src: cs, check_dst: cd });
     }
     f
 }
@@ -331,8 +333,8 @@ impl Prop for C15 {
         let mut with = SutCfg::new(s.kind, s.cap);
         with.filter = Some(s.filter.clone());
         let without = SutCfg::new(s.kind, s.cap);
-        let fcfg = sut::filter_tcp(&s.filter);
-        let second = s.refilter.as_ref().filter(|_| s.kind == Kind::Unified).map(|(k, f)| (*k, sut::filter_tcp(f)));
+        let fcfg = sut::filter_canonical(&s.filter);
+        let second = s.refilter.as_ref().filter(|_| s.kind == Kind::Unified).map(|(k, f)| (*k, sut::filter_canonical(f)));
         let admit: Vec<Option<bool>> = s
             .trace
             .iter()
